@@ -329,6 +329,47 @@ def correspondence(ctx):
             ctx.count("corr guard error branches")
         ask_r("jump", {"sys": label, "jumps": 0}, impl_r(lambda: el.generate_effective_lindbladian_from_jump_operators(
             c, [], is_physicality_required=False).hs), (n, n), "jump", d, bs, "-", EPS)
+    # ---- constructor guards: every ValueError branch of EffectiveLindbladian.__init__ / Gate.__init__, in code order
+    def ctor_kind(e):
+        m = str(e)
+        for key, kind_ in (("0th prop I", "basisNotOnh0"), ("must be square matrix", "notSquare"), ("square number", "dimNotSquare"),
+                           ("must be real matrix", "notReal"), ("must equal dim of CompositeSystem", "dimMismatch"),
+                           ("not physically correct", "notPhysical")):
+            if key in m:
+                return kind_
+        return type(e).__name__
+    c_q = qobj.csys("qubit")
+    c_bad = qobj.csys("qubit", basis_fn=lambda: mb.SparseMatrixBasis([_dense(x) for x in mb.get_pauli_basis()]))   # unnormalised
+    Hc = herm(g, 2, 1.0)
+    hs_phys = el.generate_hs_from_hk(c_q, Hc, psd(g, 3, 2, 0.5))
+    hs_ncp = el.generate_hs_from_hk(c_q, Hc, herm(g, 3, 1.0))
+    hs_ntp = hs_phys.copy(); hs_ntp[0, 1] = 0.25
+    ctor_cases = [
+        ("ok-physical", c_q, hs_phys, True), ("ok-not-required", c_q, hs_ntp, False),
+        ("basis", c_bad, hs_phys, True), ("basis-first", c_bad, np.zeros((4, 5)), True),
+        ("not-square", c_q, np.zeros((4, 5)), True), ("dim-not-square", c_q, np.zeros((3, 3)), True),
+        ("dim-not-square-2", c_q, np.zeros((8, 8)), False),
+        ("complex", c_q, hs_phys.astype(np.complex128), True), ("int", c_q, np.zeros((4, 4), dtype=np.int64), False),
+        ("float32", c_q, hs_phys.astype(np.float32), False),
+        ("dim-mismatch", c_q, np.zeros((9, 9)), True), ("dim-mismatch-before-physical", c_q, np.eye(9), True),
+        ("not-tp", c_q, hs_ntp, True), ("not-cp", c_q, hs_ncp, True),
+    ]
+    for nm, cc, hsx, req in ctor_cases:
+        try:
+            EffectiveLindbladian(cc, hsx, is_physicality_required=req)
+            impl_c = "ok"
+        except ValueError as e:
+            impl_c = "err " + ctor_kind(e)
+        rows, cols = hsx.shape
+        phys = False
+        if cc is c_q and rows == cols == 4 and hsx.dtype == np.float64:
+            L_ = EL(cc, hsx)
+            phys = bool(L_.is_tp() and L_.is_cp())
+        i_ = drv.ask("ctor", int(bool(cc.is_orthonormal_hermitian_0thprop_identity)), rows, cols, int(hsx.dtype == np.float64),
+                     cc.dim, int(req), int(phys))
+        pend.append(("ctor", {"case": nm}, impl_c, i_, ("s", None), 1.0))
+        ctx.count("corr constructor guard branches")
+        ctx.case(("ctor", nm), nontrivial=True, sample={"op": "constructor guards", "case": nm})
     out = drv.run()
     for op, desc, impl, i, (kind, shape), ref in pend:
         ctx.corr_ops.add(op)
@@ -337,6 +378,8 @@ def correspondence(ctx):
         ok = False
         if t[0] == "bad-op":
             ok = False
+        elif kind == "s":
+            ok = rep == impl
         elif kind == "b":
             ok = t[0] == "ok" and (t[1] == "true") == impl[1]
         elif t[0] == "err" or impl[0] == "err":
